@@ -101,7 +101,7 @@ def mixed_precision_case(rng, seed, k):
 def run(tier, seed, rng):
     from harness import kfacgen
     cov = Coverage('random models / strategies (worlds 1-4) x lr and kl_clip constant, callable (tables) or None x clipping active '
-                   '(tiny kl), inactive (huge kl) and zero gradients x 1-3 steps; non-trivial = clipping active (nu < 1) with >= 2 '
+                   '(tiny kl), inactive (huge kl), zero gradients and NEGATIVE inner products (negative definite factors loaded from a checkpoint, explicit inverses) x 1-3 steps; non-trivial = clipping active (nu < 1) with >= 2 '
                    'layers; distinct by hash')
     failures: list[Failure] = []
     n = 60 if tier == 'quick' else 600
@@ -137,8 +137,14 @@ def run(tier, seed, rng):
             if not isinstance(cfg['kl_clip'], list) and cfg['kl_clip'] is not None:
                 cfg['sched']['kl_clip'] = ['table', [rng.choice([2.0, 0.5]) for _ in range(8)]]
             hist = [['train', cfg['accumulation_steps']], ['sched', None], ['train', cfg['accumulation_steps']], ['sched', None], ['train', cfg['accumulation_steps']]]
-        if zero:
-            continue_zero = True
+        if k % 10 == 8:
+            # stratum: negative inner product.  Factors restored from a checkpoint with negative definite A and explicit inverses make
+            # lr^2 sum <V, D> < 0; the property bounds its ABSOLUTE value, so the clip must bind exactly as for a positive sum
+            mode = 'negative'; cfg['compute_method'] = 'inverse'; cfg['compute_eigenvalue_outer_product'] = False
+            cfg['factor_update_steps'] = 1000; cfg['sched'] = None
+            if cfg['kl_clip'] is None or isinstance(cfg['kl_clip'], list) or cfg['kl_clip'] >= 1:
+                cfg['kl_clip'] = 1e-6
+            hist = [['train', cfg['accumulation_steps']], ['load', True, True, 'negA'], ['train', cfg['accumulation_steps']]]
         wa, wb = run_pair(cfg, hist, seed + k)
         case = {'cfg': cfg, 'history': hist, 'seed': seed + k, 'mode': mode}
         if not (wa.ok and wb.ok):
@@ -165,7 +171,7 @@ def run(tier, seed, rng):
             nu_model = 1.0 if nu_hex == 'none' else float.fromhex(nu_hex)
             nontriv = nu_model < 1.0 and len(D) >= 2
             cov.add(dict(case, step=si), nontriv, sample_cap=2)
-            cov.count('mode', mode); cov.count('W', cfg['W']); cov.count('clipped', nu_model < 1.0)
+            cov.count('mode', mode); cov.count('W', cfg['W']); cov.count('clipped', nu_model < 1.0); cov.count('negative_sum', s_model < 0)
             probs = []
             # one scalar for all layers, entries and ranks
             for r, (D_r, _, _, _, A_r, V_r) in enumerate(per_rank):
